@@ -23,6 +23,13 @@ def run_plan(chk, pid, plan, nontrivial_fn, also=()):
             module=st.get("module", "TraceCircuit"))
         tracecheck.attribute(chk, results, pid, exe, st["scen"], st["flavour"], d, also=also,
                              module=st.get("module", "TraceCircuit"), exe_name=st.get("exe", "record"))
+        notes = {}
+        for rep, _evs, _p in results:
+            for f in rep["fails"]:
+                if f["p"] == "note":
+                    notes[f["sig"]] = notes.get(f["sig"], 0) + 1
+        for k2, v2 in notes.items():
+            chk.cov.setdefault("antecedents_held", {})[k2] = chk.cov.get("antecedents_held", {}).get(k2, 0) + v2
         for rid, evs in allruns.items():
             chk.count()
             nontrivial_fn(chk, st, rid, evs)
